@@ -894,6 +894,11 @@ func (a *swAnalysis) declaredIn(n *swNode, v *types.Var) string {
 // configured, or inside Generate / Parse only) outlives every evaluation
 func (a *swAnalysis) capturedBase(n *swNode, v *types.Var, base string) string {
 	if d := a.declaringBody(n, v); d != nil && !d.reach[0] {
+		if !d.reach[1] && !d.reach[2] {
+			// the declaring body runs neither during evaluations nor inside Generate / Parse: a variable of the configuration
+			// phase (or of a package initialiser), shared by everything that runs later
+			return base + "-config"
+		}
 		return base + "-outlives"
 	}
 	return base
@@ -1938,7 +1943,7 @@ func extractSharedWrites() {
 	}
 	var b strings.Builder
 	b.WriteString("/-! GENERATED by `tie extract` (go/parser + go/types on every non-test, non-_verif file of the repository): every write to\nstate that is not an object created in the writing function itself — package-level variables, fields and elements reached\nthrough receivers, parameters, captured variables, globals —, the guard it is under, and whether the writing body is\nreachable from the run-time entry points, from Generate and from Parser.Parse (over-approximate call graph). Do not edit. -/\nnamespace P2.Generated\n\n")
-	b.WriteString("/-- one class of writes of one function body. `fn` = file|declaration (`$lit`: inside a function literal of it);\n`kind` = pkgvar | field | elem | deref | captured | append | copy | delete | clear | sort | atomic | addr;\n`guard` = none | mutex:<expr> | rlock:<expr> | once | atomic | unsync-lazy-init:<expr>;\n`base` = what the written access path starts from: global | recv | param | local (a local that is not fresh) | captured |\ncapturedfresh | freshpath | capturedfreshpath | call | other;\n`owner` = the named type the written location belongs to (the struct of the written field, the named type of the variable an\nelement store goes through), \"\" otherwise; a captured base ends in `-outlives` when the body that declares\nthe variable is not reachable from the run-time entry points (it runs at configuration / Generate / Parse time only, so the\nvariable outlives every evaluation); the target of a `captured` write is `name@decl` (a variable of the declared function)\nor `name@lit` (of an enclosing literal) -/\nstructure SharedWrite where\n  fn : String\n  kind : String\n  target : String\n  guard : String\n  base : String\n  owner : String\n  eval : Bool\n  gen : Bool\n  parse : Bool\n\n")
+	b.WriteString("/-- one class of writes of one function body. `fn` = file|declaration (`$lit`: inside a function literal of it);\n`kind` = pkgvar | field | elem | deref | captured | append | copy | delete | clear | sort | atomic | addr;\n`guard` = none | mutex:<expr> | rlock:<expr> | once | atomic | unsync-lazy-init:<expr>;\n`base` = what the written access path starts from: global | recv | param | local (a local that is not fresh) | captured |\ncapturedfresh | freshpath | capturedfreshpath | call | other;\n`owner` = the named type the written location belongs to (the struct of the written field, the named type of the variable an\nelement store goes through), \"\" otherwise; a captured base ends in `-outlives` when the body that declares\nthe variable is not reachable from the run-time entry points but from Generate / Parse (the variable outlives every evaluation),\nin `-config` when it is reachable from none of them (a variable of the configuration phase, shared by all later operations); the target of a `captured` write is `name@decl` (a variable of the declared function)\nor `name@lit` (of an enclosing literal) -/\nstructure SharedWrite where\n  fn : String\n  kind : String\n  target : String\n  guard : String\n  base : String\n  owner : String\n  eval : Bool\n  gen : Bool\n  parse : Bool\n\n")
 	b.WriteString("def sharedWrites : List SharedWrite := [")
 	for i, r := range rows {
 		if i > 0 {
